@@ -69,7 +69,8 @@ def proof_step(pid, tier):
         err = [l for l in log.splitlines() if "Error" in l or l.startswith("File ")][-6:]
         res["reason"] = "coq build failed: " + " | ".join(err); return res
     # re-run the property file alone to read its Print Assumptions output
-    p = run.sh(f"timeout 600 coqc -q -Q theories Cas -Q proofs CasProofs -Q props CasProps -o {run.BUILD}/tmp_{pid}.vo props/{pid}.v",
+    os.makedirs(os.path.join(run.BUILD, "tmpvo"), exist_ok=True)
+    p = run.sh(f"timeout 600 coqc -q -Q theories Cas -Q proofs CasProofs -Q props CasProps -o {run.BUILD}/tmpvo/{pid}.vo props/{pid}.v",
                cwd=coq, check=False)
     if p.returncode != 0:
         res["reason"] = "coqc on the property file failed: " + p.stdout[-500:]; return res
